@@ -118,10 +118,188 @@ def random_session(rng):
     return {"kind": "sess", "n": n, "ids": rng.choice(["int", "int", "str"]), "ops": ops}
 
 
+# ---------------------------------------------------------------------------------------------------
+# worlds: several Network objects alive at the same time, each with its own routing settings
+# case: {"kind": "world", "nets": [{"n": n, "pos": [[x, y], ...]}, ...], "ops": [[k, op], ...]}; op = a session op (above, minus `v`),
+#   ["c"] Network() (creates object k: k = number of objects so far) · ["m", mode] setRoutingMethod · ["w", weight] setAStarWeight
+# Node v of network k sits at nets[k]["pos"][v]; the layouts keep every distance between two nodes rational (exact stream).
+# ---------------------------------------------------------------------------------------------------
+WORLD_WGT = [0, "1/2", 1, 1, 1, "3/2", 2]
+WORLD_WGT_F = [0.0, 0.5, 1.0, 1.0, 1.0, 1.5, 2.0, 0.3]
+
+
+def world_layout(rng, n):
+    r = rng.random()
+    if r < 0.45:          # on a line
+        sc = rng.choice([1, 1, 2, "1/2"])
+        return [[nc.tok(Fraction(rng.randint(0, 6)) * Fraction(sc)), 0] for _ in range(n)]
+    if r < 0.55:          # on a vertical line
+        return [[3, rng.randint(0, 5)] for _ in range(n)]
+    if r < 0.9:           # corners of a 3k x 4k rectangle (sides 3k, 4k, diagonal 5k)
+        k = rng.choice([1, 1, 2])
+        x0, y0 = rng.randint(0, 3), rng.randint(0, 3)
+        return [[x0 + 3 * k * rng.randint(0, 1), y0 + 4 * k * rng.randint(0, 1)] for _ in range(n)]
+    p = [rng.randint(0, 4), rng.randint(0, 4)]          # all nodes at the same place: the heuristic is 0
+    return [list(p) for _ in range(n)]
+
+
+def fsqrt(q):
+    """exact square root of a rational that is a square"""
+    import math
+    q = Fraction(q)
+    a, b = math.isqrt(q.numerator), math.isqrt(q.denominator)
+    assert a * a == q.numerator and b * b == q.denominator, q
+    return Fraction(a, b)
+
+
+def random_world(rng, gate_finding, floats=False):
+    """`gate_finding`: leave out the calls of the (not yet listed) finding's class — a search with a target on an object
+    switched to A* with a positive weight and a consistent heuristic. `floats`: the float stream — nodes anywhere on a
+    1/16 lattice in space (squares and their sums are exact doubles, the distances are irrational), float weights."""
+    import math
+    nn = rng.choice([2, 2, 2, 3])
+    nets = []
+    for _ in range(nn):
+        n = rng.randint(2, 5)
+        if floats:
+            flat = rng.random() < 0.5
+            pts = [[rng.randint(0, 128) / 16.0, rng.randint(0, 128) / 16.0, 0.0 if flat else rng.randint(0, 64) / 16.0] for _ in range(n)]
+            if rng.random() < 0.3:
+                pts[rng.randrange(n)] = list(pts[rng.randrange(n)])
+            nets.append({"n": n, "pos": pts})
+        else:
+            nets.append({"n": n, "pos": world_layout(rng, n)})
+    fw = lambda: rng.choice([0.0, rng.uniform(0, 10), rng.uniform(0, 10), rng.uniform(0, 0.01), float(rng.randint(0, 5))])
+    st = [None] * nn      # per created object: nodes, next edge id, prepared, mode, wgt, edges, weight style
+    ops = []
+    cut = lambda: rng.choice(SESS_CUTS)
+    obj = lambda: rng.choice([0, 0, 0, 1, 2])
+    created = 0
+    for step in range(rng.randint(8, 34)):
+        if created == 0 or (created < nn and rng.random() < 0.12):
+            ops.append([created, ["c"]])
+            st[created] = {"nodes": [], "eid": 0, "prep": False, "mode": 0, "wgt": 1, "edges": [],
+                           "metric": rng.random() < 0.6, "calls": 0}
+            created += 1
+            if rng.random() < 0.4:        # configured right after its creation
+                S = st[created - 1]
+                S["mode"] = 1
+                ops.append([created - 1, ["m", 1]])
+                if rng.random() < 0.6:
+                    S["wgt"] = rng.choice(WORLD_WGT_F) if floats else rng.choice(WORLD_WGT)
+                    ops.append([created - 1, ["w", S["wgt"]]])
+            continue
+        k = rng.randrange(created)
+        S, net = st[k], nets[k]
+        n, nodes = net["n"], S["nodes"]
+        r = rng.random()
+        S["calls"] += 1
+        if not nodes or r < (0.7 if S["calls"] <= 3 else 0.15):
+            a = rng.randrange(n)
+            b = rng.choice(nodes) if nodes and rng.random() < 0.5 else rng.randrange(n)
+            if rng.random() < 0.5:
+                a, b = b, a
+            if floats:
+                dab = math.sqrt(float(sqdist(net["pos"], a, b)))
+                w = dab * rng.choice([1.0, 1.0, 1.5, 2.0, rng.uniform(1, 3), rng.uniform(0.9, 1.1)]) if S["metric"] and dab > 0 else fw()
+            else:
+                dab = fsqrt(sqdist(net["pos"], a, b))
+                if S["metric"] and dab > 0:
+                    w = nc.tok(dab * Fraction(rng.choice([1, 1, 1, "3/2", 2, 3])))      # at least the straight-line distance
+                    w = int(w) if "/" not in w else w
+                else:
+                    w = rng.choice(SESS_W)
+            e = ["e", S["eid"], a, b, w, rng.choice([-1, 0, 0, 0, 1])]
+            ops.append([k, e]); S["edges"].append(e[1:])
+            S["eid"] += rng.choice([1, 1, 2])
+            for v in (a, b):
+                if v not in nodes:
+                    nodes.append(v)
+        elif r < 0.19:
+            v = rng.randrange(n)
+            ops.append([k, ["n", v]])
+            if v not in nodes:
+                nodes.append(v)
+        elif r < 0.30:
+            S["mode"] = rng.choice([1, 1, 1, 0])
+            ops.append([k, ["m", S["mode"]]])
+        elif r < 0.37:
+            S["wgt"] = (rng.choice(WORLD_WGT_F) if rng.random() < 0.7 else rng.uniform(0, 2)) if floats else rng.choice(WORLD_WGT)
+            ops.append([k, ["w", S["wgt"]]])
+        elif r < 0.70:
+            t = rng.choice(nodes)
+            q = ["d", rng.choice(nodes), t, cut(), rng.choice([0, 0, 0, 1]), obj()] if rng.random() < 0.75 else \
+                ["r", rng.choice(nodes), t, cut(), rng.choice([0, 0, 1]), obj()]
+            if gate_finding and S["mode"] == 1 and Fraction(nc.num(S["wgt"])) > 0 and heuristic_consistent(net["pos"], S["edges"], S["wgt"]):
+                continue
+            ops.append([k, q])
+        elif r < 0.76:
+            ops.append([k, ["l", rng.choice(nodes), cut(), rng.choice([0, 0, 1]), obj()]])
+        elif r < 0.80:
+            ops.append([k, ["r", rng.choice(nodes), None, cut(), rng.choice([0, 0, 1]), obj()]])
+        elif r < 0.86:
+            ops.append([k, ["a", cut(), rng.choice([0, 1])]])
+        elif r < 0.91:
+            ops.append([k, ["p", cut()]]); S["prep"] = True
+        elif r < 0.96 and S["prep"]:
+            ops.append([k, [rng.choice(["q", "q", "h"]), rng.choice(nodes), rng.choice(nodes), obj()]])
+        else:
+            ops.append([k, ["s", rng.choice(nodes), cut(), obj()]])
+    if floats:      # cut-offs as floats; a third of them off the integers
+        for _, op in ops:
+            i = {"d": 3, "r": 3, "l": 2, "a": 1, "p": 1, "s": 2}.get(op[0])
+            if i is not None and op[i] != "none":
+                op[i] = float(Fraction(op[i])) if rng.random() < 0.6 else rng.uniform(0, 12)
+    return {"kind": "fworld" if floats else "world", "nets": nets, "ops": ops}
+
+
+def world_valid(case):
+    """objects are created in order before they are used; each object's calls are a valid session"""
+    created = 0
+    per = {}
+    for k, op in case["ops"]:
+        if op[0] == "c":
+            if k != created or k >= len(case["nets"]):
+                return False
+            created += 1; per[k] = []
+        elif k not in per:
+            return False
+        elif op[0] not in "mw":
+            per[k].append(op)
+    return all(sess_valid({"n": case["nets"][k]["n"], "ops": ops}) for k, ops in per.items())
+
+
+def world_regimes(case):
+    """for the histogram: what kinds of searches with a target the case holds"""
+    tags = {"dijkstra": 0, "dijkstra_while_another_is_astar": 0, "astar_weight_0": 0, "astar_consistent": 0, "astar_approx": 0}
+    S = {}
+    for k, op in case["ops"]:
+        if op[0] == "c":
+            S[k] = {"mode": 0, "wgt": 1, "edges": []}
+        elif op[0] == "m":
+            S[k]["mode"] = op[1]
+        elif op[0] == "w":
+            S[k]["wgt"] = op[1]
+        elif op[0] == "e":
+            S[k]["edges"].append(op[1:])
+        elif op[0] == "d" or (op[0] == "r" and op[2] is not None) or op[0] == "s":
+            if S[k]["mode"] != 1 or op[0] == "s":
+                others = any(j != k and x["mode"] == 1 and Fraction(nc.num(x["wgt"])) > 0 for j, x in S.items())
+                tags["dijkstra_while_another_is_astar" if others else "dijkstra"] += 1
+            elif Fraction(nc.num(S[k]["wgt"])) == 0:
+                tags["astar_weight_0"] += 1
+            elif heuristic_consistent(case["nets"][k]["pos"], S[k]["edges"], S[k]["wgt"]):
+                tags["astar_consistent"] += 1
+            else:
+                tags["astar_approx"] += 1
+    return tags
+
+
 def json_op(op):
     return "%s(%s)" % ({"n": "addNode", "e": "addEdge", "r": "run_routing_forward", "d": "shortest_distance", "l": "shortest_distance[list]",
                         "a": "all_shortest_distances", "p": "prepare", "q": "prepared_shortest_distance",
-                        "h": "has_prepared_shortest_distance", "s": "sub_network", "v": "save_prep+load_prep"}[op[0]], ",".join(str(x) for x in op[1:]))
+                        "h": "has_prepared_shortest_distance", "s": "sub_network", "v": "save_prep+load_prep",
+                        "c": "Network", "m": "setRoutingMethod", "w": "setAStarWeight"}[op[0]], ",".join(str(x) for x in op[1:]))
 
 
 def dtok(x):
@@ -133,6 +311,346 @@ def dtok(x):
 
 def table_tok(tb, unlab=lambda x: x):
     return sorted([unlab(k[0]), unlab(k[1]), nc.tok(Fraction(v))] for k, v in tb.items())
+
+
+FINDING_ASTAR = "astar-label-accumulates-heuristic"
+ASTAR_TAG = "[A* selected on this network, consistent heuristic] "
+
+
+def sqdist(pos, a, b):
+    """squared straight-line distance between the nodes a and b (exact)"""
+    return sum((Fraction(nc.num(q)) - Fraction(nc.num(p))) ** 2 for p, q in zip(pos[a], pos[b]))
+
+
+def heuristic_consistent(pos, edges, wgt):
+    """the 'theoretical assumptions on the metrics used to set weights' of setRoutingMethod's docstring, for the heuristic
+    astar_wgt * (straight-line distance to the target): 0 <= astar_wgt and every edge weighs at least astar_wgt times the
+    straight-line distance between its two ends. Then h(u) <= w(u,v) + h(v) along every arc whatever the target (triangle
+    inequality): the heuristic is consistent, and A* returns the exact minimum."""
+    wgt = Fraction(nc.num(wgt))
+    if wgt < 0:
+        return False
+    return all(Fraction(nc.num(e[3])) ** 2 >= wgt ** 2 * sqdist(pos, e[1], e[2]) for e in edges)
+
+
+class SessOracle:
+    """The property's oracle for ONE Network object, fed call by call: every answer against Floyd-Warshall on the graph
+    as built so far. Checked: what the property states — sentinel iff unreachable; true distance whenever it is within the
+    cut-off; a table filled by all_shortest_distances / prepare / a search without target holds exactly the pairs within
+    the cut-off, each with its true distance; every entry written to a dictionary is a true distance of the graph at that
+    moment. Left free: labels beyond the cut-off, which nodes a search stopped at a target has recorded, entries written
+    before an edge was added (they are not distances of the current graph).
+
+    Routing method: the object's OWN settings (setRoutingMethod / setAStarWeight called on it) decide. Dijkstra (the
+    default): the statement applies always. A* matters only for a search with a target (without one the code never
+    computes the heuristic): the statement applies when the heuristic is consistent (`heuristic_consistent`, which
+    includes astar_wgt = 0) — the configuration for which the docstring promises the exact solution; otherwise A* is
+    documented as approximate and only what every A* guarantees is checked: sentinel iff unreachable (no cut-off), and a
+    reported value is never below the true minimum."""
+
+    def __init__(self, n, pos=None, tol=None):
+        self.n = n
+        self.tol = tol         # None: exact stream (tokens compared for equality); else relative tolerance (float stream)
+        self.nodes, self.edges, self.ver = [], [], 0
+        self.E = {}            # expected content of the caller's dictionary: key -> (token, graph version when written)
+        self.D = None          # expected DISTANCES, same form
+        self.fw = None
+        self.mode, self.wgt = 0, 1
+        self.pos = pos if pos is not None else [[v, 0] for v in range(n)]
+
+    def dist(self):
+        if self.fw is None:
+            self.fw = nc.floyd_warshall(self.n, self.edges)
+        return self.fw
+
+    def eq(self, got, true):
+        """the reported token `got` is the true value `true` (None = none)"""
+        if true is None or got is None or got == "none":
+            return (got == "none" or got is None) and true is None
+        if self.tol is None:
+            return got == nc.tok(true)
+        return abs(Fraction(got) - true) <= self.tol * max(1, abs(true))
+
+    def above(self, got, true):
+        return Fraction(got) > true + (0 if self.tol is None else self.tol * max(1, abs(true)))
+
+    def regime(self, t):
+        """'exact' (the statement applies), 'approx' (A*, heuristic not consistent); and whether a too-large value
+        belongs to the listed finding's class (A* by the object's own setting, positive weight, consistent heuristic)"""
+        if self.mode != 1 or t is None:
+            return "exact", False
+        if heuristic_consistent(self.pos, self.edges, self.wgt):
+            return "exact", Fraction(nc.num(self.wgt)) > 0
+        return "approx", False
+
+    def check_value(self, what, got, true, c, regime, known):
+        """one reported distance `got` (token, 'none' = -1) for a pair of true distance `true` (None = unreachable)"""
+        if true is None:
+            if got != "none":
+                return "%s = %s but no permitted walk exists (expected -1)" % (what, got), False
+            return None, False
+        if regime == "exact":
+            if within(true, c) and not self.eq(got, true):
+                # the finding's two faces: an inflated value, or (inflated labels exceeding the cut-off) the sentinel
+                k = known and (self.above(got, true) if got != "none" else c is not None)
+                return "%s%s = %s, the minimum over permitted walks is %s" % (ASTAR_TAG if k else "", what, got, nc.tok(true)), k
+            return None, False
+        # approximate A*: never below the minimum; the sentinel only when a cut-off stopped the search
+        if got == "none":
+            if c is None:
+                return "%s = -1 but a permitted walk of weight %s exists (A*, no cut-off)" % (what, nc.tok(true)), False
+        elif not self.eq(got, true) and not self.above(got, true):
+            return "%s = %s is below the minimum over permitted walks %s (A*)" % (what, got, nc.tok(true)), False
+        return None, False
+
+    def check_dict(self, what, got, s_written, complete, c, regime="exact", known=False):
+        """`got`: dump of the dictionary; entries of source s_written were (re)written by this call"""
+        exp, nodes = self.E, self.nodes
+        d = self.dist()
+        gotd = {(a, b): v for a, b, v in got}
+        srcs = nodes if s_written is None else [s_written]
+        for s in srcs:
+            for v in nodes:
+                w = within(d[s][v], c)
+                g = gotd.get((s, v))
+                if regime == "approx":
+                    if g is not None:
+                        exp[(s, v)] = (g, self.ver)
+                    continue
+                tag = lambda: ASTAR_TAG if known and d[s][v] is not None and self.above(g, d[s][v]) else ""
+                if w and complete:
+                    if not self.eq(g, d[s][v]):
+                        return "%s: dictionary[(%d,%d)] = %s, the true distance %s is within the cut-off" % (what, s, v, g, nc.tok(d[s][v])), False
+                    exp[(s, v)] = (g, self.ver)
+                elif g is not None and (s, v) not in exp:
+                    # written by this call (it was not there before): must be a true distance within the cut-off
+                    if not w or not self.eq(g, d[s][v]):
+                        return "%s%s: wrote dictionary[(%d,%d)] = %s; true distance %s, cut-off %s" % (
+                            tag(), what, s, v, g, "none" if d[s][v] is None else nc.tok(d[s][v]), c), bool(tag())
+                    exp[(s, v)] = (g, self.ver)
+                elif g is not None and exp[(s, v)][0] != g:
+                    # overwritten by this call
+                    if not w or not self.eq(g, d[s][v]):
+                        return "%s%s: overwrote dictionary[(%d,%d)] with %s; true distance %s, cut-off %s" % (
+                            tag(), what, s, v, g, "none" if d[s][v] is None else nc.tok(d[s][v]), c), bool(tag())
+                    exp[(s, v)] = (g, self.ver)
+        for key in gotd:
+            if key not in exp:
+                return "%s: dictionary has the key %s, which no call should have written" % (what, list(key)), False
+        for key in exp:
+            if key not in gotd:
+                return "%s: the key %s disappeared from the dictionary" % (what, list(key)), False
+        return None, False
+
+    def feed(self, what, op, res, pos):
+        """judge one call; `res[pos:]` = its result record(s). Returns (message or None, message belongs to the listed
+        finding's class, position after the records of this call)."""
+        nodes, edges = self.nodes, self.edges
+        if pos >= len(res):
+            return "%s: no result" % what, False, pos
+        r = res[pos]; pos += 1
+        k = op[0]
+        has_dump = (k in "rd" and op[4]) or (k == "l" and op[3]) or (k == "a" and op[2])
+        end = pos + (1 if has_dump else 0)
+        if isinstance(r, str) and r not in ("ok",):
+            return "%s: %s" % (what, r), False, end
+        if k == "n":
+            if op[1] not in nodes:
+                nodes.append(op[1])
+            return None, False, end
+        if k == "e":
+            edges.append([op[1], op[2], op[3], op[4], op[5]])
+            for v in (op[2], op[3]):
+                if v not in nodes:
+                    nodes.append(v)
+            self.ver += 1; self.fw = None
+            return None, False, end
+        if k == "m":
+            self.mode = op[1]
+            return None, False, end
+        if k == "w":
+            self.wgt = op[1]
+            return None, False, end
+        d = self.dist()
+        ver = self.ver
+        cv = lambda c: cutval(c if c == "none" else nc.tok(nc.num(c)))
+        def dict_fail(m, known):
+            self.E = None      # after a failure the dictionary's content is no longer predictable
+            return m, known, end
+        if k == "d":
+            s, t, c = op[1], op[2], cv(op[3])
+            regime, known = self.regime(t)
+            m, kn = self.check_value(what, r[1], d[s][t], c, regime, known)
+            if m:
+                if op[4]:
+                    self.E = None
+                return m, kn, end
+            if op[4] and self.E is not None:
+                m, kn = self.check_dict(what, res[pos][1], s, False, c, regime, known)
+                if m:
+                    return dict_fail(m, kn)
+        elif k in ("l", "r"):
+            s = op[1]
+            c = cv(op[-3])
+            t = op[2] if k == "r" else None
+            regime, known = self.regime(t)
+            labels = r[1]
+            if len(labels) != len(nodes):
+                return "%s: %d values for %d nodes" % (what, len(labels), len(nodes)), False, end
+            for j, v in enumerate(nodes):
+                if d[s][v] is None:
+                    if labels[j] != "none":
+                        return "%s: node %d has the label %s but is unreachable" % (what, v, labels[j]), False, end
+                elif t is None or v == t:
+                    m, kn = self.check_value("%s: label of node %d" % (what, v), labels[j], d[s][v], c, regime, known)
+                    if m:
+                        if op[-2]:
+                            self.E = None
+                        return m, kn, end
+                if k == "r" and r[2][j] and not (self.mode == 1 and t is not None) and \
+                        (d[s][v] is None or not self.eq(labels[j], d[s][v])):
+                    return "%s: node %d is marked visited with the label %s, true distance %s" % (what, v, labels[j], d[s][v]), False, end
+            if op[-2] and self.E is not None:
+                m, kn = self.check_dict(what, res[pos][1], s, t is None, c, regime, known)
+                if m:
+                    return dict_fail(m, kn)
+        elif k == "a":
+            c = cv(op[1])
+            if op[2]:
+                if self.E is not None:
+                    m, kn = self.check_dict(what, r[1], None, True, c)
+                    if m:
+                        return dict_fail(m, kn)
+                if res[pos][1] != r[1]:
+                    self.E = None       # the dictionary was not filled in place (the property does not require it): its content is no longer predictable
+            else:
+                want = sorted([s, v, nc.tok(d[s][v])] for s in nodes for v in nodes if within(d[s][v], c))
+                same = r[1] == want if self.tol is None else (
+                    [x[:2] for x in r[1]] == [x[:2] for x in want] and all(self.eq(x[2], d[x[0]][x[1]]) for x in r[1]))
+                if not same:
+                    extra = [x for x in r[1] if x not in want][:3]
+                    missing = [x for x in want if x not in r[1]][:3]
+                    return "%s: entries not among the pairs with distance <= cut: %s; missing or wrong: %s" % (what, extra, missing), False, end
+        elif k == "p":
+            c = cv(op[1])
+            if self.D is None:
+                self.D = {}
+            for s in nodes:
+                for v in nodes:
+                    if within(d[s][v], c):
+                        self.D[(s, v)] = (d[s][v], ver)
+        elif k in ("q", "h"):
+            key = (op[1], op[2])
+            D = self.D
+            if D is None:
+                return None, False, end
+            if key not in D:
+                if r[1] not in ("none", 0):
+                    return "%s = %s but no prepare so far had this pair within its cut-off" % (what, r[1]), False, end
+            elif D[key][1] == ver:
+                if (k == "q" and not self.eq(r[1], D[key][0])) or (k == "h" and r[1] != 1):
+                    return "%s = %s, expected the prepared distance %s" % (what, r[1], nc.tok(D[key][0])), False, end
+        elif k == "s":
+            # the returned object is a Network: its own distances must be right (its Node objects are shared with `net`)
+            ids, eids, probe = r[1], r[2], r[3]
+            sub_edges = [e for e in edges if e[0] in eids]
+            ds = nc.floyd_warshall(self.n, sub_edges)
+            for a, row in zip(ids, probe):
+                for b, got in zip(ids, row):
+                    want = "none" if ds[a][b] is None else nc.tok(ds[a][b])
+                    if not self.eq(got, ds[a][b]):
+                        return "%s: on the returned sub-network shortest_distance(%d,%d) = %s, expected %s" % (what, a, b, got, want), False, end
+        return None, False, end
+
+
+class SessRunner:
+    """one real `Network` object and what the caller holds (the Node objects handed in, a dictionary passed as
+    output_dict); `call(op)` performs one op of the session forms above and returns its result record(s)"""
+
+    def __init__(self, mods, strs=False, pos=None):
+        self.mods = mods
+        Network = mods[0]
+        self.net = Network()
+        self.mine = {}          # the Node objects handed to addNode / addEdge
+        self.ud = {}            # the caller's dictionary
+        self.pos = pos          # node id -> [x, y] (default: (v, 0))
+        self.lab = (lambda v: None if v is None else "n%d" % v) if strs else (lambda v: v)
+        self.unlab = (lambda x: int(x[1:])) if strs else (lambda x: x)
+
+    def coords(self, v, dy=0):
+        ENUCoords = self.mods[5]
+        if self.pos is None:
+            return ENUCoords(v, dy, 0)
+        p = self.pos[v]
+        return ENUCoords(nc.pynum(p[0]), nc.pynum(p[1]) + dy, nc.pynum(p[2]) if len(p) > 2 else 0)
+
+    def node(self, v):
+        if v not in self.mine:
+            self.mine[v] = self.mods[1](self.lab(v), self.coords(v))
+        return self.mine[v]
+
+    def arg(self, v, obj):
+        if v is None or obj == 0:
+            return self.lab(v)
+        # 2: a fresh Node object with the same id (its own coordinates are never looked at: ids are)
+        return self.net.NODES[self.lab(v)] if obj == 1 else self.mods[1](self.lab(v), self.coords(v, 1))
+
+    def call(self, op):
+        Network, Node, Edge, Track, Obs, ENUCoords, ObsTime = self.mods
+        net, ud, arg, unlab = self.net, self.ud, self.arg, self.unlab
+        ckw = lambda c: {} if c == "none" else {"cut": nc.pynum(c)}
+        k = op[0]
+        if k == "n":
+            net.addNode(self.node(op[1])); r = "ok"
+        elif k == "e":
+            e = Edge(op[1], Track())
+            e.orientation = op[5]
+            e.weight = nc.pynum(op[4])
+            net.addEdge(e, self.node(op[2]), self.node(op[3])); r = "ok"
+        elif k == "m":
+            net.setRoutingMethod(op[1]); r = "ok"
+        elif k == "w":
+            net.setAStarWeight(nc.pynum(op[1])); r = "ok"
+        elif k == "r":
+            net.run_routing_forward(arg(op[1], op[5]), arg(op[2], op[5]), output_dict=ud if op[4] else None, **ckw(op[3]))
+            ns = [net.NODES[i] for i in net.getNodesId()]
+            r = ["f", [dtok(x.poids) for x in ns], [1 if x.visite else 0 for x in ns]]
+        elif k == "d":
+            r = ["v", dtok(net.shortest_distance(arg(op[1], op[5]), arg(op[2], op[5]), output_dict=ud if op[4] else None, **ckw(op[3])))]
+        elif k == "l":
+            r = ["l", [dtok(x) for x in net.shortest_distance(arg(op[1], op[4]), output_dict=ud if op[3] else None, **ckw(op[2]))]]
+        elif k == "a":
+            tb = net.all_shortest_distances(output_dict=ud if op[2] else None, **ckw(op[1]))
+            r = ["t", table_tok(tb, unlab)]
+        elif k == "p":
+            net.prepare(verbose=False, **ckw(op[1])); r = "ok"
+        elif k == "q":
+            r = ["v", dtok(net.prepared_shortest_distance(arg(op[1], op[3]), arg(op[2], op[3])))]
+        elif k == "h":
+            r = ["b", 1 if net.has_prepared_shortest_distance(arg(op[1], op[3]), arg(op[2], op[3])) else 0]
+        elif k == "v":
+            import tempfile, os
+            fd, path = tempfile.mkstemp(suffix=".npy")
+            os.close(fd)
+            try:
+                net.save_prep(path)
+                net.DISTANCES = None
+                net.load_prep(path)
+            finally:
+                os.remove(path)
+            r = "ok"
+        elif k == "s":
+            sub = net.sub_network(arg(op[1], op[3]), 1e300 if op[2] == "none" else nc.pynum(op[2]), verbose=False)
+            ids = sub.getNodesId()
+            # searches on the returned network (it shares the Node objects with `net`), then `net` goes on
+            probe = [[dtok(sub.shortest_distance(a, b)) for b in ids] for a in ids]
+            r = ["s", [unlab(x) for x in ids], list(sub.getEdgesId()), probe]
+        else:
+            raise ValueError("unknown op %r" % (op,))
+        out = [r]
+        if (k in "rd" and op[4]) or (k == "l" and op[3]) or (k == "a" and op[2]):
+            out.append(["t", table_tok(ud, unlab)])
+        return out
 
 
 class P(Prop):
@@ -167,14 +685,29 @@ class P(Prop):
         (M, "TV.C06.heapq_heappush", "heapq.heappush (append + _siftdown) keeps the heap invariant and adds exactly the item (permutation)"),
         (M, "TV.C06.heapq_heappop_min", "heapq.heappop (_siftup: bubble to a leaf, then _siftdown) returns a minimum of the multiset, leaves the other items, keeps the heap invariant; fails iff empty"),
         (M, "TV.C06.heapq_heapify", "heapq.heapify turns any list into a heap with the same items"),
+        (M, "TV.C06.routing_settings_per_object", "several Network objects, setRoutingMethod / setAStarWeight / calls interleaved in any order: each object ends in the state and returns the answers of the calls addressed to it alone (the settings are per instance)"),
+        (M, "TV.C06.world_dijkstra_distance_correct", "any program over several Network objects (creations, edges, searches, prepare, sub_network, setRoutingMethod / setAStarWeight on any of them, interleaved): on an object whose own method is Dijkstra shortest_distance(s,t[,cut]) = the minimum over permitted walks of its current graph, sentinel iff none"),
+        (M, "TV.C06.own_setting_dijkstra_is_session", "an object whose own routing_mode is not 1 (the default) answers every call as the session model, whatever its astar_wgt; the setters change their own object's two attributes only"),
+        (M, "TV.C06.no_target_no_heuristic", "in A* mode every call other than a search with a target (list form, all_shortest_distances, prepare, sub_network) is the Dijkstra call: the heuristic is never computed"),
+        (M, "TV.C06.astar_zero_heuristic_is_dijkstra", "A* with a heuristic that is 0 everywhere (astar_wgt = 0, or all nodes at the target's place) runs as Dijkstra: shortest_distance(s,t) = the true minimum, sentinel iff unreachable"),
+        (M, "TV.C06.astar_as_coded_bounds", "the A* branch as coded (poids = g + accumulated heuristic), any heuristic >= 0: a reported value is never below the weight of a permitted walk; without a cut-off the sentinel iff no walk exists"),
+        (M, "TV.C06.astar_as_coded_inflates", "the A* branch as coded is NOT exact even for a consistent heuristic: on the road 0-10-1-10-2 it reports 30, the distance (and the repaired variant's answer) is 20 (finding astar-label-accumulates-heuristic)"),
+        (M, "TV.C06.astar_fixed_exact", "the repaired A* (label g, queue priority g + h) is exact for every consistent heuristic: the minimum over permitted walks, sentinel iff none"),
+        (M, "TV.C06.consistent_of_scaled_metric", "edges weighing at least astar_wgt x the distance between their ends + the triangle inequality make the heuristic consistent (the configuration the oracle holds A* to the statement for)"),
     ]
     partial = []
     open_statements = ["float weights: the theorems need only a linear order, a + 0 = a, 0 <= w -> a <= a + w and a <= b -> a + w <= b + w (no associativity: code and Walk both add from the source outwards), "
                        "which IEEE round-to-nearest addition has on non-NaN doubles; they are stated with Mathlib's ordered-monoid classes, so the instance for IEEE doubles is not constructed in Lean "
                        "(the float stream compares with exact rational distances at 1e-9 relative)",
                        "save_prep / load_prep are modelled as 'the dictionary read back is the dictionary written' (numpy's pickle is exercised by the sessions, not modelled); "
-                       "sub_network in GEOMETRIC mode and A* mode are outside the model"]
-    modelled = ("Network.addNode / addEdge (NEXT_EDGES by orientation), __resetFlags, run_routing_forward in Dijkstra mode (pop by (poids, node id), stop tests "
+                       "sub_network in GEOMETRIC mode is outside the model",
+                       "A* as coded (routing_mode = 1, a target, heuristic not 0) does not satisfy the statement (theorem astar_as_coded_inflates; finding astar-label-accumulates-heuristic, "
+                       "findings/C06.json): only astar_as_coded_bounds is proved for it; exactness is proved for the repaired variant (astar_fixed_exact, exact arithmetic, no cut-off). "
+                       "The Euclidean triangle inequality behind `consistent_of_scaled_metric` is a hypothesis (sqrt is a parameter of the model)"]
+    modelled = ("Network.__init__ (routing_mode, astar_wgt as instance attributes), setRoutingMethod, setAStarWeight, the A* branch of run_routing_forward as coded "
+                "(heuristic = astar_wgt * fils.distanceTo(NODES[target]) when routing_mode == 1 and a target is given, added into fils.poids; relaxation test without it), "
+                "Node.distanceTo / ENUCoords.distanceTo / norm, several Network objects alive at once (Model/GraphAStar.lean, which also holds the repaired A* `forwardFix`); "
+                "Network.addNode / addEdge (NEXT_EDGES by orientation), __resetFlags, run_routing_forward in Dijkstra mode (pop by (poids, node id), stop tests "
                 "before recording, 'other end' rule, visite guard, strict < relaxation, output_dict), shortest_distance (pair and list form, ids or Node objects, with output_dict), "
                 "all_shortest_distances (fresh or caller's dictionary), prepare, prepared_shortest_distance, has_prepared_shortest_distance, sub_network (TOPOLOGIC) — "
                 "as pure functions (Model/Graph.lean) and as a state machine over call sequences on one object (Model/GraphSession.lean); "
@@ -183,7 +716,8 @@ class P(Prop):
                 "(proved equal to the abstract loop)")
     trusted = ["CPython's _heapq C accelerator is taken to run the algorithm of Lib/heapq.py (checked position by position on random operation sequences by the hq and pq streams); "
                "Node.__lt__ compares ids, so (poids, Node) tuples are ordered as (priority, id)",
-               "A* routing mode (routing_mode = 1) is outside the model"]
+               "math.sqrt on the squared distances of the exact world stream (rational squares: nodes on a line or on the corners of 3k x 4k rectangles) is exact; "
+               "int ** 2 / float ** 2 of the coordinates used is exact (float stream: coordinates are multiples of 1/16 below 8, so libm's pow(x, 2.0) has an exactly representable result)"]
     rule = ("every multigraph on <= 3 nodes with <= 2 edges as ordered edge lists (quick) and with 3 edges as multisets in shuffled order (thorough), "
             "weights {0,1,2}, orientations {-1,0,1}, self-loops and parallel edges included, node insertion order shuffled; random graphs to 12 nodes / 40 edges "
             "with integer and dyadic weights. Per graph: every ordered pair, cut-offs below/equal/above each distinct distance (a sample of them for the "
@@ -194,12 +728,55 @@ class P(Prop):
             "the flags read back, all_shortest_distances, prepare/prepared/has_prepared, save_prep+load_prep through a temporary file, sub_network followed by searches on the returned network that shares the Node objects; "
             "cut-offs none/0/.5/1/2/3/5; ids, the network's Node objects or fresh equal Node objects as arguments; a caller's dictionary passed repeatedly as output_dict), every answer "
             "checked against Floyd-Warshall on the graph as built so far. "
-            "Several (2-3) small networks alive at the same time with their calls interleaved. Every case is evaluated on freshly executed definitions of network.py / utils.py "
+            "Several (2-3) small networks alive at the same time with their calls interleaved. "
+            "Worlds: 2-3 Network objects (2-5 nodes each, placed on a line, on the corners of a 3k x 4k rectangle, or all at one point, so that every distance is rational), created at "
+            "random moments, 8-34 calls interleaved: the session calls above plus setRoutingMethod(0/1) and setAStarWeight(0, 1/2, 1, 3/2, 2) on individual objects; edge weights "
+            "either metric (straight-line distance x 1, 3/2, 2, 3) or arbitrary. Each object's answers are judged with ITS OWN settings: Dijkstra -> the statement; A* without a target -> the "
+            "statement; A* with a target and a consistent heuristic (0 <= astar_wgt, every weight >= astar_wgt x straight-line length; includes astar_wgt = 0) -> the statement "
+            "(failures there with a too-large value are the finding astar-label-accumulates-heuristic; such calls are generated only once that finding is listed in known_findings.json); "
+            "A* with a target otherwise (documented as approximate) -> sentinel iff unreachable when there is no cut-off, and never below the minimum. "
+            "Float worlds: the same with nodes anywhere on a 1/16 lattice in the plane or in space (irrational distances, sqrt = IEEE sqrt), float weights (metric x 1..3 or arbitrary, zeros), "
+            "float astar_wgt and cut-offs; model instantiated at Float and compared bit for bit, oracle in exact rationals at 1e-9 relative. "
+            "Every case is evaluated on freshly executed definitions of network.py / utils.py "
             "(state kept at module, class or default-argument level cannot leak from one case to the next: a failing case fails in a fresh process). "
             "non-trivial = at least one ordered pair s != t is joined by a walk (graphs) / at least one pop (priority_dict, heapq) / a distance query after an edge was added (sessions)")
 
     def setup(self):
         self.mods = nc.import_mods()
+        self._listed = None
+
+    def listed(self, cls):
+        """is `cls` a listed finding of known_findings.json (read, never written)? Inputs of a finding's class are generated
+        only then: the engine excuses a failing case only when its class is listed (proposal: findings/C06.json)"""
+        if getattr(self, "_listed", None) is None:
+            import json, os
+            try:
+                with open(os.path.join(os.path.dirname(os.path.dirname(os.path.dirname(os.path.abspath(__file__)))), "known_findings.json")) as fh:
+                    ents = json.load(fh).get("entries", [])
+                self._listed = {e.get("class") for e in ents if e.get("property") == "C06" and e.get("status") == "finding"}
+            except Exception:
+                self._listed = set()
+        return cls in self._listed
+
+    def corpus(self):
+        """corpus cases marked `needs_listed` are witnesses of a finding: run only once the finding is listed"""
+        import json, os
+        d = os.path.join(os.path.dirname(os.path.dirname(os.path.dirname(os.path.abspath(__file__)))), "corpus", self.id)
+        out = []
+        if os.path.isdir(d):
+            for f in sorted(os.listdir(d)):
+                if f.endswith(".json"):
+                    with open(os.path.join(d, f)) as fh:
+                        c = json.load(fh)
+                    if c.get("needs_listed") and not self.listed(c["needs_listed"]):
+                        continue
+                    out.append(c.get("case", c))
+        return out
+
+    def classify(self, case, impl_out, msg):
+        if isinstance(msg, str) and msg.startswith(ASTAR_TAG):
+            return FINDING_ASTAR
+        return None
 
     def fresh(self):
         """Hermetic evaluation: every case runs on freshly executed definitions of the two anchored modules
@@ -298,6 +875,13 @@ class P(Prop):
                 g["cuts"] = ["none"] + sorted({nc.tok(c) for c in rng.sample(allc, min(2, len(allc)))}, key=Fraction)
                 subs.append(g)
             out.append({"kind": "multi", "subs": subs})
+        # several Network objects with their own routing settings (setRoutingMethod / setAStarWeight), calls interleaved
+        gate = not self.listed(FINDING_ASTAR)
+        for _ in range(1500 if tier == "quick" else 25000):
+            out.append(random_world(rng, gate))
+        # the same with float coordinates / weights / cut-offs (model instantiated at Float, sqrt = IEEE sqrt)
+        for _ in range(500 if tier == "quick" else 8000):
+            out.append(random_world(rng, gate, floats=True))
         return out
 
     def describe(self, case):
@@ -307,6 +891,10 @@ class P(Prop):
             return {"kind": "hq", "pops": min(10, sum(1 for o in case["ops"] if o[0] == "o")), "heapify": any(o[0] == "h" for o in case["ops"])}
         if case["kind"] == "multi":
             return {"kind": "multi", "networks": len(case["subs"])}
+        if case["kind"] in ("world", "fworld"):
+            tg = world_regimes(case)
+            return {"kind": case["kind"], "networks": sum(1 for _, o in case["ops"] if o[0] == "c"),
+                    "targeted_searches": "+".join(k for k, v in sorted(tg.items()) if v) or "none"}
         if case["kind"] == "sess":
             ks = [o[0] for o in case["ops"]]
             first_q = next((i for i, k in enumerate(ks) if k not in "ne"), len(ks))
@@ -329,6 +917,14 @@ class P(Prop):
             return any(o[0] == "o" for o in case["ops"])
         if case["kind"] == "multi":
             return any(self.nontrivial(sub) for sub in case["subs"])
+        if case["kind"] in ("world", "fworld"):
+            seen = set()
+            for k, o in case["ops"]:
+                if o[0] == "e":
+                    seen.add(k)
+                if k in seen and o[0] in "dlarps":
+                    return True
+            return False
         if case["kind"] == "sess":
             seen_edge = False
             for o in case["ops"]:
@@ -382,70 +978,24 @@ class P(Prop):
         return {"res": res}
 
     def impl_sess(self, case):
-        Network, Node, Edge, Track, Obs, ENUCoords, ObsTime = self.mods
         res = []
         with nc.time_limit(10):
-            net = Network()
-            mine = {}          # the Node objects handed to addNode / addEdge
-            ud = {}            # the caller's dictionary
-            strs = case.get("ids", "int") == "str"
-            lab = (lambda v: None if v is None else "n%d" % v) if strs else (lambda v: v)
-            unlab = (lambda x: int(x[1:])) if strs else (lambda x: x)
-            def node(v):
-                if v not in mine:
-                    mine[v] = Node(lab(v), ENUCoords(v, 0, 0))
-                return mine[v]
-            def arg(v, obj):
-                if v is None or obj == 0:
-                    return lab(v)
-                return net.NODES[lab(v)] if obj == 1 else Node(lab(v), ENUCoords(v, 1, 0))
-            ckw = lambda c: {} if c == "none" else {"cut": nc.pynum(c)}
+            run = SessRunner(self.mods, case.get("ids", "int") == "str")
             for op in case["ops"]:
-                k = op[0]
-                if k == "n":
-                    net.addNode(node(op[1])); r = "ok"
-                elif k == "e":
-                    e = Edge(op[1], Track())
-                    e.orientation = op[5]
-                    e.weight = nc.pynum(op[4])
-                    net.addEdge(e, node(op[2]), node(op[3])); r = "ok"
-                elif k == "r":
-                    net.run_routing_forward(arg(op[1], op[5]), arg(op[2], op[5]), output_dict=ud if op[4] else None, **ckw(op[3]))
-                    ns = [net.NODES[i] for i in net.getNodesId()]
-                    r = ["f", [dtok(x.poids) for x in ns], [1 if x.visite else 0 for x in ns]]
-                elif k == "d":
-                    r = ["v", dtok(net.shortest_distance(arg(op[1], op[5]), arg(op[2], op[5]), output_dict=ud if op[4] else None, **ckw(op[3])))]
-                elif k == "l":
-                    r = ["l", [dtok(x) for x in net.shortest_distance(arg(op[1], op[4]), output_dict=ud if op[3] else None, **ckw(op[2]))]]
-                elif k == "a":
-                    tb = net.all_shortest_distances(output_dict=ud if op[2] else None, **ckw(op[1]))
-                    r = ["t", table_tok(tb, unlab)]
-                elif k == "p":
-                    net.prepare(verbose=False, **ckw(op[1])); r = "ok"
-                elif k == "q":
-                    r = ["v", dtok(net.prepared_shortest_distance(arg(op[1], op[3]), arg(op[2], op[3])))]
-                elif k == "h":
-                    r = ["b", 1 if net.has_prepared_shortest_distance(arg(op[1], op[3]), arg(op[2], op[3])) else 0]
-                elif k == "v":
-                    import tempfile, os
-                    fd, path = tempfile.mkstemp(suffix=".npy")
-                    os.close(fd)
-                    try:
-                        net.save_prep(path)
-                        net.DISTANCES = None
-                        net.load_prep(path)
-                    finally:
-                        os.remove(path)
-                    r = "ok"
-                elif k == "s":
-                    sub = net.sub_network(arg(op[1], op[3]), 1e300 if op[2] == "none" else nc.pynum(op[2]), verbose=False)
-                    ids = sub.getNodesId()
-                    # searches on the returned network (it shares the Node objects with `net`), then `net` goes on
-                    probe = [[dtok(sub.shortest_distance(a, b)) for b in ids] for a in ids]
-                    r = ["s", [unlab(x) for x in ids], list(sub.getEdgesId()), probe]
-                res.append(r)
-                if (k in "rd" and op[4]) or (k == "l" and op[3]) or (k == "a" and op[2]):
-                    res.append(["t", table_tok(ud, unlab)])
+                res += run.call(op)
+        return {"res": res}
+
+    def impl_world(self, case):
+        """several Network objects, each created by its `c` op, calls interleaved as listed"""
+        res = []
+        with nc.time_limit(10):
+            runs = {}
+            for k, op in case["ops"]:
+                if op[0] == "c":
+                    runs[k] = SessRunner(self.mods, False, pos=case["nets"][k]["pos"])
+                    res.append("ok")
+                else:
+                    res += runs[k].call(op)
         return {"res": res}
 
     def impl_float(self, case):
@@ -468,6 +1018,8 @@ class P(Prop):
             return self.impl_pq(case)
         if case["kind"] == "sess":
             return self.impl_sess(case)
+        if case["kind"] in ("world", "fworld"):
+            return self.impl_world(case)
         if case["kind"] == "rnd-float":
             return self.impl_float(case)
         if case["kind"] == "multi":
@@ -539,15 +1091,33 @@ class P(Prop):
             init = ";".join("%s:%d" % (nc.tok(nc.num(p)), k) for p, k in case["init"]) or "_"
             ops = ";".join(o[0] if o[0] != "u" else "u,%s,%d" % (nc.tok(nc.num(o[1])), o[2]) for o in case["ops"]) or "_"
             return ["C06.hq %s %s" % (init, ops)]
+        if case["kind"] in ("world", "fworld"):
+            fl = case["kind"] == "fworld"
+            fmt = (lambda x: fbits(float(x))) if fl else (lambda x: nc.tok(nc.num(x)))
+            nets = "|".join(";".join([str(nt["n"])] + [",".join(fmt(c) for c in (list(p) + [0])[:3]) for p in nt["pos"]])
+                            for nt in case["nets"]) or "_"
+            toks = []
+            for k, op in case["ops"]:
+                if op[0] == "c":
+                    toks.append("%d:c" % k)
+                elif op[0] == "m":
+                    toks.append("%d:m,%d" % (k, op[1]))
+                elif op[0] == "w":
+                    toks.append("%d:w,%s" % (k, fmt(op[1])))
+                else:
+                    sub = self.requests({"kind": "sess", "n": 0, "ops": [op], "fmt": fmt})[0].split(" ")[2]
+                    toks += ["%d:%s" % (k, t) for t in sub.split(";")]
+            return ["C06.%s %s %s" % ("fworld" if fl else "world", nets, ";".join(toks) or "_")]
         if case["kind"] == "sess":
-            ct = lambda c: "none" if c == "none" else nc.tok(nc.num(c))
+            fmt = case.get("fmt") or (lambda x: nc.tok(nc.num(x)))
+            ct = lambda c: "none" if c == "none" else fmt(c)
             toks = []
             for op in case["ops"]:
                 k = op[0]
                 if k == "n":
                     toks.append("n,%d" % op[1])
                 elif k == "e":
-                    toks.append("e,%d,%d,%d,%s,%d" % (op[1], op[2], op[3], nc.tok(nc.num(op[4])), op[5]))
+                    toks.append("e,%d,%d,%d,%s,%d" % (op[1], op[2], op[3], fmt(op[4]), op[5]))
                 elif k == "r":
                     toks.append("r,%d,%s,%s,%d" % (op[1], "_" if op[2] is None else op[2], ct(op[3]), op[4]))
                 elif k == "d":
@@ -614,9 +1184,11 @@ class P(Prop):
             if replies[0] == "bad-request":
                 raise ValueError("bad-request")
             return {"res": [] if replies[0] == "_" else replies[0].split(",")}
-        if case["kind"] == "sess":
+        if case["kind"] in ("sess", "world", "fworld"):
             if replies[0] == "bad-request":
                 raise ValueError("bad-request")
+            # float stream: the model's doubles as the exact rationals they denote (what dtok() makes of the implementation's)
+            cv = (lambda t: t if t == "none" else nc.tok(Fraction(bitsf(t)))) if case["kind"] == "fworld" else (lambda t: t)
             lst = lambda t: [] if t in ("_", "") else t.split(",")
             res = []
             for tokn in ([] if replies[0] == "_" else replies[0].split(";")):
@@ -625,13 +1197,13 @@ class P(Prop):
                 k, body = tokn[0], tokn[2:]
                 if k == "f":
                     d, v = body.split("|")
-                    res.append(["f", lst(d), [int(x) for x in lst(v)]])
+                    res.append(["f", [cv(x) for x in lst(d)], [int(x) for x in lst(v)]])
                 elif k == "v":
-                    res.append(["v", body])
+                    res.append(["v", cv(body)])
                 elif k == "l":
-                    res.append(["l", lst(body)])
+                    res.append(["l", [cv(x) for x in lst(body)]])
                 elif k == "t":
-                    res.append(["t", sorted([int(a), int(b), d] for a, b, d in (x.split(".") for x in lst(body)))])
+                    res.append(["t", sorted([int(a), int(b), cv(d)] for a, b, d in (x.split(".") for x in lst(body)))])
                 elif k == "b":
                     res.append(["b", int(body)])
                 elif k == "s":
@@ -677,7 +1249,7 @@ class P(Prop):
             m = self.spec_pq(case, impl_out)     # the reference dict agrees with the model; name what differs
             if m:
                 return m
-        if case["kind"] == "sess" and "res" in impl_out and isinstance(model_out, dict) and "res" in model_out:
+        if case["kind"] in ("sess", "world", "fworld") and "res" in impl_out and isinstance(model_out, dict) and "res" in model_out:
             # the searches on the returned sub-network are not part of the one-object model (checked by spec_sess)
             impl_out = {"res": [r[:3] if isinstance(r, list) and r and r[0] == "s" else r for r in impl_out["res"]]}
         return Prop.compare(self, case, impl_out, model_out)
@@ -695,6 +1267,8 @@ class P(Prop):
             return None
         if case["kind"] == "sess":
             return self.spec_sess(case, out)
+        if case["kind"] in ("world", "fworld"):
+            return self.spec_world(case, out)
         if case["kind"] == "multi":
             for i, (sub, o) in enumerate(zip(case["subs"], out["subs"])):
                 m = self.spec(sub, o)
@@ -777,150 +1351,38 @@ class P(Prop):
         return None
 
     def spec_sess(self, case, out):
-        """every answer of the session against Floyd-Warshall on the graph as built so far. Checked: what the property
-        states — sentinel iff unreachable; true distance whenever it is within the cut-off; a table filled by
-        all_shortest_distances / prepare / a search without target holds exactly the pairs within the cut-off, each with
-        its true distance; every entry written to a dictionary is a true distance of the graph at that moment.
-        Left free: labels beyond the cut-off, which nodes a search stopped at a target has recorded, entries written
-        before an edge was added (they are not distances of the current graph)."""
-        n = case["n"]
-        nodes, edges, ver = [], [], 0
+        """every answer of the session against Floyd-Warshall on the graph as built so far (`SessOracle`)"""
+        orc = SessOracle(case["n"])
         res = list(out["res"])
         pos = 0
-        E = {}            # expected content of the caller's dictionary: key -> (token, graph version when written)
-        D = None          # expected DISTANCES, same form
-        fw = [None]
-        def dist():
-            if fw[0] is None:
-                fw[0] = nc.floyd_warshall(n, edges)
-            return fw[0]
-        def check_dict(what, got, exp, s_written, complete, c):
-            """`got`: dump of the dictionary; entries of source s_written were (re)written by this call"""
-            d = dist()
-            gotd = {(a, b): v for a, b, v in got}
-            srcs = nodes if s_written is None else [s_written]
-            for s in srcs:
-                for v in nodes:
-                    w = within(d[s][v], c)
-                    g = gotd.get((s, v))
-                    if w and complete:
-                        if g != nc.tok(d[s][v]):
-                            return "%s: dictionary[(%d,%d)] = %s, the true distance %s is within the cut-off" % (what, s, v, g, nc.tok(d[s][v]))
-                        exp[(s, v)] = (g, ver)
-                    elif g is not None and (s, v) not in exp:
-                        # written by this call (it was not there before): must be a true distance within the cut-off
-                        if not w or g != nc.tok(d[s][v]):
-                            return "%s: wrote dictionary[(%d,%d)] = %s; true distance %s, cut-off %s" % (
-                                what, s, v, g, "none" if d[s][v] is None else nc.tok(d[s][v]), c)
-                        exp[(s, v)] = (g, ver)
-                    elif g is not None and exp[(s, v)][0] != g:
-                        # overwritten by this call
-                        if not w or g != nc.tok(d[s][v]):
-                            return "%s: overwrote dictionary[(%d,%d)] with %s; true distance %s, cut-off %s" % (
-                                what, s, v, g, "none" if d[s][v] is None else nc.tok(d[s][v]), c)
-                        exp[(s, v)] = (g, ver)
-            for key in gotd:
-                if key not in exp:
-                    return "%s: dictionary has the key %s, which no call should have written" % (what, list(key))
-            for key in exp:
-                if key not in gotd:
-                    return "%s: the key %s disappeared from the dictionary" % (what, list(key))
-            return None
         for i, op in enumerate(case["ops"]):
-            if pos >= len(res):
-                return "call %d (%s): no result" % (i, op)
-            r = res[pos]; pos += 1
-            k = op[0]
-            what = "call %d %s" % (i, json_op(op))
-            if isinstance(r, str) and r not in ("ok",):
-                return "%s: %s" % (what, r)
-            if k == "n":
-                if op[1] not in nodes:
-                    nodes.append(op[1])
-                continue
-            if k == "e":
-                edges.append([op[1], op[2], op[3], op[4], op[5]])
-                for v in (op[2], op[3]):
-                    if v not in nodes:
-                        nodes.append(v)
-                ver += 1; fw[0] = None
-                continue
-            d = dist()
-            if k == "d":
-                s, t, c = op[1], op[2], cutval(op[3] if op[3] == "none" else nc.tok(nc.num(op[3])))
-                got = r[1]
-                if d[s][t] is None:
-                    if got != "none":
-                        return "%s = %s but no permitted walk exists (expected -1)" % (what, got)
-                elif within(d[s][t], c) and got != nc.tok(d[s][t]):
-                    return "%s = %s, the minimum over permitted walks is %s" % (what, got, nc.tok(d[s][t]))
-                if op[4]:
-                    m = None if E is None else check_dict(what, res[pos][1], E, s, False, c); pos += 1
-                    if m:
-                        return m
-            elif k in ("l", "r"):
-                s = op[1]
-                c = cutval(op[-3] if op[-3] == "none" else nc.tok(nc.num(op[-3])))
-                t = op[2] if k == "r" else None
-                labels = r[1]
-                if len(labels) != len(nodes):
-                    return "%s: %d values for %d nodes" % (what, len(labels), len(nodes))
-                for j, v in enumerate(nodes):
-                    if d[s][v] is None:
-                        if labels[j] != "none":
-                            return "%s: node %d has the label %s but is unreachable" % (what, v, labels[j])
-                    elif within(d[s][v], c) and (t is None or v == t) and labels[j] != nc.tok(d[s][v]):
-                        return "%s: node %d has the label %s, true distance %s" % (what, v, labels[j], nc.tok(d[s][v]))
-                    if k == "r" and r[2][j] and labels[j] != (None if d[s][v] is None else nc.tok(d[s][v])):
-                        return "%s: node %d is marked visited with the label %s, true distance %s" % (what, v, labels[j], d[s][v])
-                if op[-2]:
-                    m = None if E is None else check_dict(what, res[pos][1], E, s, t is None, c); pos += 1
-                    if m:
-                        return m
-            elif k == "a":
-                c = cutval(op[1] if op[1] == "none" else nc.tok(nc.num(op[1])))
-                if op[2]:
-                    m = None if E is None else check_dict(what, r[1], E, None, True, c)
-                    if m:
-                        return m
-                    if res[pos][1] != r[1]:
-                        E = None       # the dictionary was not filled in place (the property does not require it): its content is no longer predictable
-                    pos += 1
-                else:
-                    want = sorted([s, v, nc.tok(d[s][v])] for s in nodes for v in nodes if within(d[s][v], c))
-                    if r[1] != want:
-                        extra = [x for x in r[1] if x not in want][:3]
-                        missing = [x for x in want if x not in r[1]][:3]
-                        return "%s: entries not among the pairs with distance <= cut: %s; missing or wrong: %s" % (what, extra, missing)
-            elif k == "p":
-                c = cutval(op[1] if op[1] == "none" else nc.tok(nc.num(op[1])))
-                if D is None:
-                    D = {}
-                for s in nodes:
-                    for v in nodes:
-                        if within(d[s][v], c):
-                            D[(s, v)] = (nc.tok(d[s][v]), ver)
-            elif k in ("q", "h"):
-                key = (op[1], op[2])
-                if D is None:
-                    continue
-                if key not in D:
-                    if r[1] not in ("none", 0):
-                        return "%s = %s but no prepare so far had this pair within its cut-off" % (what, r[1])
-                elif D[key][1] == ver:
-                    if (k == "q" and r[1] != D[key][0]) or (k == "h" and r[1] != 1):
-                        return "%s = %s, expected the prepared distance %s" % (what, r[1], D[key][0])
-            elif k == "s":
-                # the returned object is a Network: its own distances must be right (its Node objects are shared with `net`)
-                ids, eids, probe = r[1], r[2], r[3]
-                sub_edges = [e for e in edges if e[0] in eids]
-                ds = nc.floyd_warshall(n, sub_edges)
-                for a, row in zip(ids, probe):
-                    for b, got in zip(ids, row):
-                        want = "none" if ds[a][b] is None else nc.tok(ds[a][b])
-                        if got != want:
-                            return "%s: on the returned sub-network shortest_distance(%d,%d) = %s, expected %s" % (what, a, b, got, want)
+            m, _, pos = orc.feed("call %d %s" % (i, json_op(op)), op, res, pos)
+            if m:
+                return m
         return None
+
+    def spec_world(self, case, out):
+        """several Network objects: each object's answers are judged by its own oracle, with its OWN settings (what the
+        other objects were told never matters). A failure of the listed finding's class (an object switched to A* by its
+        own setter, consistent heuristic) is reported only when nothing else fails in the case."""
+        orcs = {}
+        res = list(out["res"])
+        pos = 0
+        first_known = None
+        for i, (k, op) in enumerate(case["ops"]):
+            what = "call %d on network %d: %s" % (i, k, json_op(op))
+            if op[0] == "c":
+                if pos >= len(res) or res[pos] != "ok":
+                    return "%s: %s" % (what, res[pos] if pos < len(res) else "no result")
+                orcs[k] = SessOracle(case["nets"][k]["n"], pos=case["nets"][k]["pos"], tol=1e-9 if case["kind"] == "fworld" else None)
+                pos += 1
+                continue
+            m, known, pos = orcs[k].feed(what, op, res, pos)
+            if m and not known:
+                return m
+            if m and first_known is None:
+                first_known = m
+        return first_known
 
     def spec_pq(self, case, out):
         ref = {k: nc.num(p) for k, p in case["init"]}
@@ -944,6 +1406,28 @@ class P(Prop):
         return None
 
     # ---------------------------------------------------------------- shrinking / search
+    @staticmethod
+    def shrink_world(case):
+        ops, nets = case["ops"], case["nets"]
+        used = sorted({k for k, _ in ops})
+        for k in reversed(used):              # drop a whole object (renumbering the later ones)
+            if len(used) > 1:
+                r = lambda j: j - 1 if j > k else j
+                c = {"kind": case["kind"], "nets": nets[:k] + nets[k + 1:], "ops": [[r(j), o] for j, o in ops if j != k]}
+                if world_valid(c):
+                    yield c
+        for i in range(len(ops) - 1, -1, -1):
+            c = dict(case, ops=ops[:i] + ops[i + 1:])
+            if world_valid(c):
+                yield c
+        for i, (k, op) in enumerate(ops):
+            if op[0] in "rdlqhs" and op[-1] != 0:
+                yield dict(case, ops=ops[:i] + [[k, op[:-1] + [0]]] + ops[i + 1:])
+            if op[0] in "rd" and op[4] != 0:
+                yield dict(case, ops=ops[:i] + [[k, op[:4] + [0] + op[5:]]] + ops[i + 1:])
+            if op[0] in "rdl" and op[-3] != "none":
+                yield dict(case, ops=ops[:i] + [[k, op[:-3] + ["none"] + op[-2:]]] + ops[i + 1:])
+
     def shrink(self, case):
         if case["kind"] == "multi":
             subs = case["subs"]
@@ -955,6 +1439,13 @@ class P(Prop):
             for k, sub in enumerate(subs):
                 for c in self.shrink(sub):
                     yield dict(case, subs=subs[:k] + [c] + subs[k + 1:])
+            return
+        if case["kind"] in ("world", "fworld"):
+            # while the A* finding is not listed its class is not generated — and not drifted into by shrinking either
+            gate = not self.listed(FINDING_ASTAR) and world_regimes(case)["astar_consistent"] == 0
+            for c in self.shrink_world(case):
+                if world_valid(c) and not (gate and world_regimes(c)["astar_consistent"]):
+                    yield c
             return
         if case["kind"] == "pq":
             for k in range(len(case["ops"])):
@@ -990,7 +1481,7 @@ class P(Prop):
             yield dict(case, cuts=cut_tokens(case, d))
 
     def mutate(self, case, rng):
-        if case["kind"] in ("pq", "hq", "sess", "multi"):
+        if case["kind"] in ("pq", "hq", "sess", "multi", "world", "fworld"):
             return
         c = nc.explicit(case)
         for k, e in enumerate(c["edges"]):
